@@ -880,6 +880,13 @@ class _GenerateRenderMethod:
                     ),
                 ) or (
                     (isinstance(c, parsetree.Code) and c.ismodule)
+                    # a <% %> block with no statement in it
+                    or (
+                        isinstance(c, parsetree.Code)
+                        and not pyparser.parse(
+                            c.code.code.lstrip(), "exec", **c.exception_kwargs
+                        ).body
+                    )
                     # an empty <%text></%text>
                     or (isinstance(c, parsetree.TextTag) and not c.nodes)
                 )
